@@ -270,7 +270,13 @@ def noteEvents (tgt : Nat) (op : Op) (note : String) : Option (List (Nat × Ev))
   | ["fx", "join", g] => pure [(tgt, .fxJoin g)]
   | ["fx", "reply", k, v, x] => do pure [(tgt, .fxReply (← k.toNat?) (← v.toNat?) (x == "Ok"))]
   | ["fx", "forget", k, x] => do pure [(tgt, .fxForget (← k.toNat?) (x == "Ok"))]
-  | ["call", k, r] => do pure [(tgt, .callRet (← k.toNat?) (← parseCallRes? r))]
+  | ["call", k, r] => do
+    let k ← k.toNat?
+    let r ← parseCallRes? r
+    -- the first poll of the call future (op `call k a`) is the send of the request
+    match op with
+    | .call _ _ => pure [(tgt, .callSent k (r != .sendErr)), (tgt, .callRet k r)]
+    | _ => pure [(tgt, .callRet k r)]
   | ["wait", w, r] => do pure [(tgt, .waitRet (← w.toNat?) (r == "Ready"))]
   | ["notask"] | ["nospawn"] | ["noopen"] | ["busy"] | ["respawn"] | ["nocell"] | ["nowait"] | ["nocall"]
   | ["bad-op"] => pure []
@@ -308,7 +314,7 @@ def parseTables (field : String) : List (String × List Nat) :=
 
 /-! ### driver state -/
 
-inductive Prop3 | c01 | c03 | c04 | residue
+inductive Prop3 | c01 | c03 | c04 | residue | c02
   deriving DecidableEq
 
 structure Mon where
@@ -316,6 +322,7 @@ structure Mon where
   c03 : Except String C03.St := .ok {}
   c04 : Except String C04.St := .ok {}
   res : Except String Residue.St := .ok {}
+  c02 : Except String C02.St := .ok {}
   /-- last observed supervisor (status field) -/
   sup : Option Nat := none
 
@@ -350,9 +357,10 @@ def feedEv (which : Prop3) (mons : Array Mon) (a : Nat) (e : Ev) : Array Mon × 
   let (c03, f3) := feed C03.next m.c03 e
   let (c04, f4) := feed (C04.next a) m.c04 e
   let (res, f8) := feed Residue.next m.res e
+  let (c02, f2) := feed C02.next m.c02 e
   let fails := match which with
-    | .c01 => f1.toList | .c03 => f3.toList | .c04 => f4.toList | .residue => f8.toList
-  (mons.set! a { m with c01, c03, c04, res }, fails)
+    | .c01 => f1.toList | .c03 => f3.toList | .c04 => f4.toList | .residue => f8.toList | .c02 => f2.toList
+  (mons.set! a { m with c01, c03, c04, res, c02 }, fails)
 
 def hasSub (s sub : String) : Bool := (s.splitOn sub).length > 1
 
@@ -396,6 +404,10 @@ def step (which : Prop3) (st : St) (opLine impl : String) : St × StepOut :=
       match noteEvents tgt op n with
       | some l => (acc.1 ++ l, acc.2)
       | none => (acc.1, true)) (pre, false)
+    -- the end of a poll of a live loop task
+    let evsR : List (Nat × Ev) := match op with
+      | .poll a => if notes.contains "notask" then evsR else evsR ++ [(a, Ev.polled)]
+      | _ => evsR
     let (mons, fails) := evsR.foldl (fun (acc : Array Mon × List String) (a, e) =>
       let (m, f) := feedEv which acc.1 a e
       (m, acc.2 ++ f)) (st.mons, [])
@@ -421,7 +433,7 @@ def step (which : Prop3) (st : St) (opLine impl : String) : St × StepOut :=
         ngroups := (tabs.filter (fun t => groups.contains t.1 && t.2.contains o.id)).length }
       let (m, f) := feedEv which mons o.id (.snap sn)
       (m, fails ++ f)) (mons, fails)
-    let pfx := match which with | .c01 => "c01" | .c03 => "c03" | .c04 => "c04" | .residue => "residue"
+    let pfx := match which with | .c01 => "c01" | .c03 => "c03" | .c04 => "c04" | .residue => "residue" | .c02 => "c02"
     let fails := if bad then fails ++ [pfx ++ ".unparsable"] else fails
     -- residue oracle, driver-level clauses about the registry: a name that the implementation showed as free
     -- can be taken; a name clash leaves every observable field as it was
@@ -454,6 +466,8 @@ def step (which : Prop3) (st : St) (opLine impl : String) : St × StepOut :=
                 || ((match op with | .kill _ | .stop _ _ => true | _ => false) && hasSub impl "ret Ok" && (openCb || filled ≥ 1))
                 || hasSub impl "fx killself Ok" || hasSub impl "fx stopself"
       | .c04 => hasSub impl "emit" || hasSub impl "ret Err(" || hasSub impl "join" || hasSub impl "cancelled"
+      | .c02 => hasSub impl " handle " || ((match op with | .send _ _ | .call _ _ => true | _ => false) && (hasSub impl "ret Ok" || hasSub impl "Pending"))
+                || hasSub impl "fx sendself" || (isPoll && (match tgtA with | some a => !a.msgQ.isEmpty | none => false))
       | .residue => ((match op with | .spawn _ _ _ _ | .pollSpawn _ => true | _ => false) && hasSub impl "ret Err(")
                 || ((match op with | .dropSpawn _ => true | _ => false) && !hasSub impl "nospawn")
                 || failedSpawn
